@@ -202,6 +202,17 @@ const c04Helpers = `
 def setidx(x): x[0] = 5
 def iadd(x):
     x += [1]
+def iadd_tuple(x):
+    x += (1,)
+def iadd_range(x):
+    x += range(2)
+def iadd_dict(x):
+    x += {"k": 1}
+def iadd_set(x):
+    x += set([1])
+def iadd_elem(x):
+    o = [x]
+    o[0] += (1,)
 def setkey(d): d["zz"] = 1
 def setkey2(d): d["a"] = 5
 def ior(d):
@@ -231,6 +242,15 @@ func c04Mutators(kind string) []c04Mut {
 			{"remove", func(th *starlark.Thread, _ starlark.StringDict, v starlark.Value) error { return c04Method(th, v, "remove", starlark.MakeInt(0)) }},
 			{"x[i]=", call("setidx")},
 			{"x+=", call("iadd")},
+			{"x+=tuple", call("iadd_tuple")},
+			{"x+=range", call("iadd_range")},
+			{"x+=dict", call("iadd_dict")},
+			{"x+=set", call("iadd_set")},
+			{"o[0]+=tuple", call("iadd_elem")},
+			{"extend(list)", func(th *starlark.Thread, _ starlark.StringDict, v starlark.Value) error {
+				return c04Method(th, v, "extend", starlark.NewList([]starlark.Value{nine}))
+			}},
+			{"insert(-1)", func(th *starlark.Thread, _ starlark.StringDict, v starlark.Value) error { return c04Method(th, v, "insert", starlark.MakeInt(-1), nine) }},
 		}
 	case "dict":
 		return []c04Mut{
@@ -245,6 +265,12 @@ func c04Mutators(kind string) []c04Mut {
 			{"update", func(th *starlark.Thread, _ starlark.StringDict, v starlark.Value) error {
 				return c04Method(th, v, "update", starlark.NewList([]starlark.Value{starlark.Tuple{starlark.String("zz"), nine}}))
 			}},
+			{"update(dict)", func(th *starlark.Thread, _ starlark.StringDict, v starlark.Value) error {
+				d := starlark.NewDict(1)
+				d.SetKey(starlark.String("zz"), nine)
+				return c04Method(th, v, "update", d)
+			}},
+			{"setdefault(k, v)", func(th *starlark.Thread, _ starlark.StringDict, v starlark.Value) error { return c04Method(th, v, "setdefault", starlark.String("zz"), nine) }},
 			{"d[k]=", call("setkey")},
 			{"d[k]=existing", call("setkey2")},
 			{"d|=", call("ior")},
@@ -260,6 +286,11 @@ func c04Mutators(kind string) []c04Mut {
 			{"pop", func(th *starlark.Thread, _ starlark.StringDict, v starlark.Value) error { return c04Method(th, v, "pop") }},
 			{"remove", func(th *starlark.Thread, _ starlark.StringDict, v starlark.Value) error { return c04Method(th, v, "remove", starlark.MakeInt(0)) }},
 			{"update", func(th *starlark.Thread, _ starlark.StringDict, v starlark.Value) error { return c04Method(th, v, "update", starlark.Tuple{nine}) }},
+			{"update(list, set)", func(th *starlark.Thread, _ starlark.StringDict, v starlark.Value) error {
+				s2 := starlark.NewSet(1)
+				s2.Insert(starlark.MakeInt(8))
+				return c04Method(th, v, "update", starlark.NewList([]starlark.Value{nine}), s2)
+			}},
 		}
 	}
 	return nil
